@@ -1,13 +1,24 @@
 (* C17 correspondence checker: histories of (program, budget, maybe clear, run) on ONE Vm, every step also run on
    a FRESH Vm by the harness (harness/src/c17.rs). The host log is emptied before every step on both sides.
-   Codes: 1 = the model Vm.v (state threaded through the history, clear = Vm.clear_state) predicts something else
-              than the long-lived Vm did,
+   Two kinds of case:
+   [Hist]    the Vm has a 1 GiB memory limit, no collection runs, the model Vm.v follows every step;
+   [HistMem] the Vm has a small memory limit (300 bytes .. 64 KiB): runs end in OutOfMemory at string headers,
+             string characters, table headers, table storage (initial and growth), closures, upvalues, function
+             and native-function objects, and the host inserts OwnedValues; mixed with Timeout / stack overflow /
+             native-error runs. Vm.v has no allocator and no collector, so code 1 does NOT apply to these cases:
+             only the fresh-Vm oracle and the allocator-counter oracle (code 2, both independent of the model).
+   Codes: 1 = [Hist] the model Vm.v (state threaded through the history, clear = Vm.clear_state) predicts something
+              else than the long-lived Vm did,
           2 = specification oracle on the observations alone: a step that starts with `clear` (or is the first
-              step) must give exactly what the fresh Vm gives: outcome, error trace, globals, host log, stack
-              heights, number of objects, globals length, remaining budget; and right after every `clear` the
-              allocator counters (allocated, next_gc) and the stack heights / object / global counts equal those
-              of a new Vm,
-          3 = malformed case or not predictable by the model (Diverge / Crash / UB / unmodelled). *)
+              step) must give exactly what the fresh Vm (same memory limit) gives: outcome, error trace, globals,
+              host log, stack heights, number of objects, globals length, remaining budget; no run on either Vm ends in a
+              Rust panic (VmCheck.panic_code); for a host insertion:
+              Ok / OutOfMemory, allocated bytes and live objects afterwards; and right after every `clear` the
+              allocator counters (allocated, next_gc, [HistMem] limit) and the stack heights / object / global
+              counts equal those of a new Vm with that limit; [HistMem] the longest string that fits into the
+              cleared Vm is as long as the longest that fits into a new Vm (found by bisection, a clear after
+              every probe), and the counters are those of a new Vm after the sweep as well,
+          3 = malformed case or ([Hist]) not predictable by the model (Diverge / Crash / UB / unmodelled). *)
 From Cao Require Export VmCheck C03Check.
 Local Open Scope N_scope.
 
@@ -20,8 +31,17 @@ Record hstep := mkStep {
   h_fresh : obs                        (* a new Vm, same program and budget *)
 }.
 
+(* a step of a history under a small memory limit *)
+Inductive mstep :=
+| MRun (prog : nat) (budget : N) (clear : bool) (after_clear : option (list N)) (o fresh : obs)
+| MInsert (clear : bool) (after_clear : option (list N))
+          (res fresh_res : list N)      (* Vm::insert_value: [1 Ok / 0 OutOfMemory / 2 other; allocated; #objects] *)
+| MSweep (cleared after : list N)      (* counters after the clear that starts the sweep / after the sweep *)
+         (fit fit_fresh : N).          (* 0 = not even "" fits; L + 1 = the longest string that fits has L bytes *)
+
 Inductive c17case :=
-| Hist (debug : bool) (fresh_counters : list N) (progs : list program) (steps : list hstep).
+| Hist (debug : bool) (fresh_counters : list N) (progs : list program) (steps : list hstep)
+| HistMem (debug : bool) (limit : N) (fresh_counters : list N) (progs : list program) (steps : list mstep).
 
 Definition dummy_program : program := mkProgram [] [] [] [] [] [].
 
@@ -42,6 +62,7 @@ Fixpoint check_steps (debug : bool) (fresh_counters : list N) (progs : list prog
           let s0 := set_log (if cleared then clear_state s else s) [] in
           let '(m, s1) := run flocq_ops (bld_of debug) (N.to_nat (h_budget st)) P s0 in
           (* oracle *)
+          panic_code (h_obs st) ++ panic_code (h_fresh st) ++
           (if (cleared || first)%bool then (if obs_eqb (h_obs st) (h_fresh st) then [] else [2]) else []) ++
           (match h_after_clear st with
            | Some c => if list_eqb N.eqb c fresh_counters then [] else [2]
@@ -64,9 +85,47 @@ Fixpoint check_steps (debug : bool) (fresh_counters : list N) (progs : list prog
       end
   end.
 
+(* ---- histories under a small memory limit: observations only ---- *)
+
+(* counters = [allocated; next_gc; limit; stack height; call depth; #objects; #globals] *)
+Definition counters_ok (fc : list N) (clear : bool) (ac : option (list N)) : list N :=
+  match ac with
+  | Some c => if clear then (if list_eqb N.eqb c fc then [] else [2]) else [3]
+  | None => if clear then [3] else []
+  end.
+
+Definition is_panic (o : obs) : bool := match ob_out o with ObPanic => true | _ => false end.
+
+Fixpoint check_msteps (fc : list N) (nprogs : nat) (first : bool) (steps : list mstep) : list N :=
+  match steps with
+  | [] => []
+  | MRun p _ clear ac o f :: rest =>
+      (if Nat.ltb p nprogs then [] else [3]) ++
+      panic_code o ++ panic_code f ++
+      counters_ok fc clear ac ++
+      (if (clear || first)%bool then (if obs_eqb o f then [] else [2]) else []) ++
+      (if is_panic o then [] else check_msteps fc nprogs false rest)
+  | MInsert clear ac r rf :: rest =>
+      counters_ok fc clear ac ++
+      (if (clear || first)%bool then (if list_eqb N.eqb r rf then [] else [2]) else []) ++
+      check_msteps fc nprogs false rest
+  | MSweep c0 c1 fit fit_fresh :: rest =>
+      (if list_eqb N.eqb c0 fc then [] else [2]) ++
+      (if fit =? fit_fresh then [] else [2]) ++
+      (if list_eqb N.eqb c1 fc then [] else [2]) ++
+      check_msteps fc nprogs false rest
+  end.
+
 Definition check1 (c : c17case) : list N :=
   match c with
   | Hist debug fc progs steps => check_steps debug fc progs true fresh_state steps
+  | HistMem _ limit fc progs steps =>
+      (* the fresh counters themselves: nothing allocated, the configured limit, empty stacks, no objects *)
+      (match fc with
+       | [0; _; l; 0; 0; 0; 0] => if l =? limit then [] else [3]
+       | _ => [3]
+       end) ++
+      check_msteps fc (length progs) true steps
   end.
 
 Definition check_all := CheckUtil.check_all check1.
